@@ -1,10 +1,13 @@
 package main
 
 import (
+	"bufio"
 	"bytes"
 	"context"
 	"fmt"
 	"io"
+	"os"
+	"os/exec"
 	"sort"
 	"strconv"
 	"strings"
@@ -151,7 +154,73 @@ func subrangeKey(k string) (int64, int64, bool) {
 	return a, b, err1 == nil && err2 == nil
 }
 
+// execC14 runs a history in this process, or — in isolate mode (see main.go) — in a worker
+// process, so that a panic inside one of the caching bucket's own goroutines is attributed to the
+// history that caused it (the worker is restarted after a crash).
 func execC14(c *hlib.Ctx, tok []string) string {
+	if os.Getenv("VERIF_INDEX_ISOLATE") == "" {
+		return execC14InProc(c.Violation, tok)
+	}
+	if c14w == nil {
+		w := &c14Worker{}
+		w.cmd = exec.Command(os.Args[0], "c14child")
+		w.cmd.Stderr = &w.stderr
+		in, err1 := w.cmd.StdinPipe()
+		out, err2 := w.cmd.StdoutPipe()
+		if err1 != nil || err2 != nil || w.cmd.Start() != nil {
+			return "err:worker"
+		}
+		w.in, w.out = in, bufio.NewReaderSize(out, 1<<20)
+		c14w = w
+	}
+	w := c14w
+	fmt.Fprintln(w.in, strings.Join(tok, " "))
+	for {
+		l, err := w.out.ReadString('\n')
+		l = strings.TrimRight(l, "\n")
+		switch {
+		case strings.HasPrefix(l, "V\t"):
+			if p := strings.SplitN(l, "\t", 3); len(p) == 3 {
+				c.Violation(p[1], p[2])
+			}
+		case strings.HasPrefix(l, "A\t"):
+			return strings.TrimPrefix(l, "A\t")
+		}
+		if err != nil {
+			_ = w.cmd.Wait()
+			first := strings.SplitN(strings.TrimSpace(w.stderr.String()), "\n", 2)[0]
+			c14w = nil
+			c.Violation("getrange-crash", "the process died while serving this history: "+short(first))
+			return "crash"
+		}
+	}
+}
+
+type c14Worker struct {
+	cmd    *exec.Cmd
+	in     io.WriteCloser
+	out    *bufio.Reader
+	stderr bytes.Buffer
+}
+
+var c14w *c14Worker
+
+// c14Child is the worker: it executes history lines from stdin and prints, for each, its
+// violations and its answer.
+func c14Child(_ []string) {
+	sc := bufio.NewScanner(os.Stdin)
+	sc.Buffer(make([]byte, 1<<20), 1<<28)
+	w := bufio.NewWriter(os.Stdout)
+	for sc.Scan() {
+		ans := execC14InProc(func(class, what string) {
+			fmt.Fprintf(w, "V\t%s\t%s\n", class, strings.ReplaceAll(what, "\n", " "))
+		}, strings.Fields(sc.Text()))
+		fmt.Fprintf(w, "A\t%s\n", ans)
+		w.Flush()
+	}
+}
+
+func execC14InProc(violation func(class, what string), tok []string) string {
 	if len(tok) != 6 || tok[0] != "cb.hist" {
 		return "bad-op"
 	}
@@ -222,14 +291,14 @@ func execC14(c *hlib.Ctx, tok []string) string {
 			case out == "err":
 				class = "getrange-error"
 			}
-			c.Violation(class, fmt.Sprintf("GetRange(off=%d, len=%d) on a %d-byte object, subrange size %d: caching bucket %s (%v), wrapped bucket %s",
+			violation(class, fmt.Sprintf("GetRange(off=%d, len=%d) on a %d-byte object, subrange size %d: caching bucket %s (%v), wrapped bucket %s",
 				op.off, op.length, size, S, short(out), perr, short(want)))
 		}
 		// the cache holds only true slices of the object, under their exact keys
 		for k, v := range lc.data {
 			if a, b, ok := subrangeKey(k); ok {
 				if a < 0 || b > size || a >= b || !bytes.Equal(v, obj[a:b]) {
-					c.Violation("cache-poisoned", fmt.Sprintf("key %s holds %d bytes that are not obj[%d:%d]", k, len(v), a, b))
+					violation("cache-poisoned", fmt.Sprintf("key %s holds %d bytes that are not obj[%d:%d]", k, len(v), a, b))
 				}
 			}
 		}
